@@ -22,6 +22,7 @@ def FrameOK (c : Cfg) (sv : Nat → Nat) (f : Frame) : Prop :=
   | .setRel v => v = sv f.key
   | .store v => v = sv f.key
   | .rel v => v = sv f.key
+  | .ret v => v = sv f.key
   | .extract => c.kind f.key = .raw
   | .acq => True
   | .lookup => True
@@ -220,7 +221,7 @@ theorem owner_can_step {c : Cfg} {sv : Nat → Nat} {n : Nat} {s : State} {t : T
     rw [hst] at h7t
     simp only [StackOK, FrameOK] at h7t
     cases pc <;> simp only [hst, canAcquire, hre, ho, setTop]
-    case rel v =>
+    case ret v =>
       cases below with
       | nil => simp
       | cons g more =>
@@ -250,8 +251,21 @@ theorem free_can_step {c : Cfg} {sv : Nat → Nat} {n : Nat} {s : State} {t : Ti
   | cons f below =>
     obtain ⟨k, pc⟩ := f
     rw [hst] at h1t
+    have h7t := h.stacks t
+    rw [hst] at h7t
     cases pc <;> simp [held, holds] at h1t
-    simp [hst, canAcquire, ho]
+    case acq => simp [hst, canAcquire, ho]
+    case ret v =>
+      cases below with
+      | nil => simp [hst]
+      | cons g more =>
+        obtain ⟨_, hl, _⟩ := h7t
+        simp only [Link] at hl
+        obtain ⟨rem', acc', he⟩ := hl
+        obtain ⟨k', pc'⟩ := g
+        simp only at he
+        subst he
+        simp [hst]
 
 theorem inv_step {c : Cfg} {sv : Nat → Nat} {n : Nat} {s s' : State} {t : Tid} (hre : c.reentrant = true)
     (hsv : Sound c sv) (h : Inv c sv n s) (ht : t < n) (hs : step c s t = some s') : Inv c sv n s' := by
